@@ -157,6 +157,20 @@ theorem dispatch_grow (env : DEnv) (s : DState) (caller : SessKey) (req : Nat) (
   · exact syncError_grow ..
   · exact armTimer_grow ..
 
+theorem preCancel_grow (s : DState) (v : Invk) (t : Nat) : TimersGrow s.timers (preCancel s v t).timers := by
+  unfold preCancel
+  split
+  · exact TimersGrow.cancelTimer _ _
+  · exact TimersGrow.refl _
+
+theorem dispatchL_grow (env : DEnv) (s : DState) (caller : SessKey) (req : Nat) (callee : SessKey) (invReq : Nat)
+    (v : Invk) (timeout : Nat) (m : Msg) :
+    TimersGrow s.timers (dispatchL env s caller req callee invReq v timeout m).st.timers := by
+  unfold dispatchL
+  split
+  · exact syncError_grow ..
+  · exact (preCancel_grow s v timeout).trans (armTimer_grow ..)
+
 theorem syncCall_grow (env : DEnv) (s : DState) (caller : SessKey) (req : Nat) (opts : Dict) (proc : String)
     (args : List WVal) (kw : Dict) (rnd : Nat) :
     TimersGrow s.timers (syncCall env s caller req opts proc args kw rnd).st.timers := by
@@ -167,7 +181,7 @@ theorem syncCall_grow (env : DEnv) (s : DState) (caller : SessKey) (req : Nat) (
     · split
       · exact TimersGrow.refl _
       · unfold laterChunk
-        exact dispatch_grow env { s with d := s.d.setInv _ } ..
+        exact dispatchL_grow env { s with d := s.d.setInv _ } ..
   · split
     · exact TimersGrow.refl _
     · split
@@ -475,7 +489,7 @@ theorem syncCall_cancels {env : DEnv} {s : DState} (h : DealerInv s) (caller : S
     ?_ ?_ ?_ ?_ ?_ ?_ ?_ ?_
   · intro _ hg; exact absurd hpend hg
   · intro iid v0 _ _ _ _ _ _ _ hg
-    simp only [armTimer_calls] at hg; exact absurd hpend hg
+    simp only [armTimer_calls, preCancel_d] at hg; exact absurd hpend hg
   · intro iid v0 hb hfi hv0 _ hvc0 _ _ hg
     have he : v.callId = ⟨caller, req⟩ := eq_of_gone hpend hg
     have : v = v0 := nodup_map_inj h.call.invCalls hv hv0 (he.trans hvc0.symm)
